@@ -76,6 +76,21 @@ def modeOf : List Mode → Mode
 def nfSample (dss : List (List (Dist Mode))) (draws : List (List ℕ)) : State :=
   List.zipWith (fun ds idx => modeOf (List.zipWith pickKey ds idx)) dss draws
 
+/-- row `i` of the draws: the `i`-th of the `k` indices every `bsd.sample(k)` call returns (sample `i` uses
+`states[i]` of every call) -/
+def rowOf (calls : List (List ℕ)) (i : ℕ) : List ℕ := calls.map fun c => c.getD i 0
+
+/-- cut the flat list of calls (in the order the code makes them: mode after mode, photon after photon) into the
+calls of each mode -/
+def cutBy {α : Type} : List ℕ → List α → List (List α)
+  | [], _ => []
+  | n :: ns, l => l.take n :: cutBy ns (l.drop n)
+
+/-- ALL `k` samples of `_generate_samples_no_filter` from the draws of its `bsd.sample(k)` calls: `calls[c]` are the
+`k` indices call `c` draws (one `random.choices(…, k=k)`), sample `i` is built from the `i`-th index of every call -/
+def nfSamples (dss : List (List (Dist Mode))) (k : ℕ) (calls : List (List ℕ)) : List State :=
+  (List.range k).map fun i => nfSample dss (cutBy (dss.map List.length) (rowOf calls i))
+
 /-- ideal law of the draws of one sample: independent, call by call -/
 def nfDrawLaw (dss : List (List (Dist Mode))) : Dist (List (List ℕ)) :=
   prodLaw (dss.map fun ds => prodLaw (ds.map sampleIdxLaw))
